@@ -16,6 +16,7 @@ hands over are compared with the real code by the harness; that a solver root cl
 
 * `zmonotone_simple`            strictly increasing abscissae ⇒ simple polyline (vertex lists)
 * `construct_ok_wellformed`     `construct p = .ok g → WellFormed g` + centre vertex + echo of every given value
+* `step_two_sided`             accepted ⇒ the r2 arc ends within `0.001·depth + 1e-9·z0` of the flank line, either side
 * `flank_meets_face_C03`        the extrapolated flank of an accepted groove hits the face at `usable_width/2` (from C04)
 * `deepest_point_is_depth`      with the apex condition `indent = (r3+r4)(1−cos α4)` the r3 circle tops out at `depth`
 * `construct_rejects`           negative dimension ∨ wrong arity ∨ junctions out of order ⇒ an exception
@@ -120,6 +121,29 @@ theorem construct_ok_wellformed (simple : List (Pt ℝ) → Bool) (cfg : List (S
   simp only [List.lookup]
   rw [show (k == "pad") = false from by simpa using hpad]
   exact resolve_echo hres (withDefaults_given hk)
+
+/-- the step test as generated: two-sided, tolerance relative to the groove size -/
+def stepLhs : Expr := .abs (.sub Groove.y4 (.sub Groove.y3 (.mul (.tan (.var "flank_angle")) (.sub Groove.z4 Groove.z3))))
+def stepRhs : Expr := .add (.mul (.dec 1 3) (.var "depth")) (.mul (.dec 1 9) Groove.z0)
+
+/-- **No step at junction 4, in either direction.**  For an accepted groove the end of the r2 arc is off the flank line
+    through junction 3 by at most `0.001·depth + 1e-9·z0` — upwards or downwards (the one-sided test of the unrepaired code
+    let a negative step of any size through). -/
+theorem step_two_sided (simple : List (Pt ℝ) → Bool) (cfg : List (String × ℝ)) (N : Nat) (dflt : ℝ)
+    (p : Params ℝ) (g : Groove ℝ) (h : construct spec simple cfg N dflt p = .ok g) :
+    |Groove.y4.eval (envOf' dflt cfg g) - (Groove.y3.eval (envOf' dflt cfg g)
+        - Real.tan (envOf' dflt cfg g "flank_angle") * (Groove.z4.eval (envOf' dflt cfg g) - Groove.z3.eval (envOf' dflt cfg g)))|
+      ≤ 1 / 10 ^ 3 * envOf' dflt cfg g "depth" + 1 / 10 ^ 9 * Groove.z0.eval (envOf' dflt cfg g) := by
+  obtain ⟨-, -, hchk⟩ := construct_ok h
+  have hmem : Check.scalarGt stepLhs stepRhs "ValueError" ∈ spec.checks := by
+    simp [spec, checks, stepLhs, stepRhs]
+  obtain ⟨j, hj⟩ := runChecks_none _ _ hchk _ hmem
+  simp only [runCheck, lt_real] at hj
+  split at hj
+  · cases hj
+  · rename_i hn
+    have := not_lt.mp (by simpa using hn)
+    simpa [stepLhs, stepRhs, Expr.eval] using this
 
 /-- the face tolerance in closed form: never more than `1e-9·(z0 + depth)` below the roll face -/
 theorem faceBound_eval (σ : String → ℝ) : -(faceBound.eval σ) = 1 / 10 ^ 9 * (Groove.z0.eval σ + σ "depth") := by
